@@ -1,4 +1,4 @@
 SPECIFICATION Spec
 CONSTANTS MaxTok = 3
-INVARIANTS DesignOK DesignIdem DesignShrinkOK
+INVARIANTS DesignOK DesignIdem DesignShrinkOK AsIsOKOutsideKnown
 CHECK_DEADLOCK FALSE
